@@ -620,7 +620,10 @@ PROPS["C10"] = _dbg(
     "generated programs and hand-written ones (self-loop, counted loop, recursive JSR and CALL subroutines, HALT in the "
     "middle, jumps to xFFFF / below origin / above user space, high origin) × random scripts over {step, step into k with "
     "k ∈ {0,1,2,3,7,65535}, step out, continue, break add/remove} ending in exit; verdict adv=same: the paused machine "
-    "equals an undebugged run of the image advanced by exactly the number of executed instructions.")
+    "equals an undebugged run of the image advanced by exactly the number of executed instructions. Three-way: for every "
+    "session `cs; exit` over the alphabet that ends, the driver also runs the big-step reference debugger "
+    "(Spec/RefDebug.lean, executable) and its outcome, final machine, world, instruction count, executed addresses and "
+    "command/execution interleaving form the specification line the implementation must equal.")
 PROPS["C11"] = _dbg(
     ["Lace.C11.bp_sorted_nodup", "Lace.C11.bp_pause_before_exec", "Lace.C11.exec_rearms",
      "Lace.C11.no_bp_no_pause", "Lace.C11.runCommand_bps", "Lace.C11.armed_iteration_reads",
